@@ -144,6 +144,14 @@ theorem orthonormal_spec (G : Matrix n k K) (v : n → K) (h : IsUnit (Gᵀ * G)
   ⟨Alg.projOut_orthogonal G v h, Alg.projOut_same_side G v h, fun c => Alg.projOut_tangent G c h,
    fun s hs h0 => Alg.normalize_unit _ s hs h0⟩
 
+omit [DecidableEq n] in
+/-- outwardness of `_Normal` for every (affine or pointwise linearised) geometry: with `G` the mapped edge tangents and
+`ν = dx · ext` the mapped extension vector, the un-normalised normal `w` satisfies `w · (G c + t ν) = t (w · w)`: it has a positive
+component along the image of every vector that has a positive `ext`-component, i.e. that leaves the element through the edge
+(`ext_outward` says that `ext` itself is such a vector in the reference element). -/
+theorem normal_points_to_ext_side (G : Matrix n k K) (ν : n → K) (c : k → K) (t : K) (h : IsUnit (Gᵀ * G).det) :
+    Alg.projOut G ν ⬝ᵥ (G *ᵥ c + t • ν) = t * (Alg.projOut G ν ⬝ᵥ Alg.projOut G ν) := Alg.projOut_side G ν c t h
+
 /-- refinement / parametrisation independence of `_Gradient`: whatever invertible chain map `L` the root derivatives
 are expressed in, `(df L⁻¹)(dx L⁻¹)⁻¹ = df dx⁻¹` -/
 theorem gradient_indep_of_chain (df : n → K) (dx L : Matrix n n K) (hL : IsUnit L.det) :
